@@ -424,10 +424,27 @@ pub fn run(_env: &Env, run: &Run) -> (Stats, Coverage) {
             let s: String = t.iter().collect();
             core_ops(&s, &t, st);
         }
-        for t in cancellation_templates(c) {
+        // cancellation: the owned rule functions see the bare pair; the prefixed forms go through
+        // the profiles whose earlier rule rewrites that prefix
+        for t in [[ '\u{130}', c], [c, '\u{1e9e}']] {
             let s: String = t.iter().collect();
-            core_ops(&s, &t, st);
             owned_rule_ops(&s, st);
+        }
+        for (k, t) in cancellation_templates(c).iter().enumerate() {
+            let s: String = t.iter().collect();
+            let profs: [Prof; 2] = if k < 2 { [Prof::Nick, Prof::Opaque] } else { [Prof::Ucm, Prof::Ucp] };
+            for p in profs {
+                let r = enforce(p, &s);
+                st.evaluations += 1;
+                if matches!(r, Out::Panic(_)) {
+                    bad("enforce", &s, p.name(), &r, st);
+                }
+                let r = compare(p, &s, "a");
+                st.evaluations += 1;
+                if matches!(r, OutB::Panic(_)) {
+                    bad("compare(s,a)", &s, p.name(), &r, st);
+                }
+            }
         }
         // derived property through the char entry point
         for cl in [Class::Identifier, Class::Freeform] {
@@ -572,11 +589,11 @@ pub fn run(_env: &Env, run: &Run) -> (Stats, Coverage) {
     st.sample(json!({"input": ["U+200C"], "op": "rule_zero_width_nonjoiner", "position": "usize::MAX", "expected": "Undefined, no arithmetic overflow"}));
     st.sample(json!({"input": "0xFFFFFFFF", "op": "get_value_from_codepoint / get_context_rule", "expected": "a value, no panic"}));
     let cov = Coverage {
-        rule: format!("(a) every scalar value in 12 templates (alone, next to ASCII, before/after/around spaces, after NBSP, after a Hebrew letter, before a combining mark, between a 2-byte letter and U+3000, around a fullwidth letter) through 54 operations, plus 4 cancellation templates (behind a space / a fullwidth letter, next to a mapping that grows and one that shrinks in UTF-8) through enforce, compare and the 20 rule functions with an owned String: 4 profiles x (prepare, enforce, static prepare, static enforce, compare(s,s), compare(s,a), compare(a,s), static compare, 5 Rules methods) + allows of both classes; (b) every u32 in {} through get_value_from_codepoint of both classes and get_context_rule; (c) every string of length <= {} over a {}-symbol alphabet with one member of every behaviour class and every UTF-8 length, all operations; (c') pumped runs a^k b, b a^k, a^k b a for k in 6..9, 15..17, 30..33, 63..65 over the alphabet (127..1025 over 6 symbols) every ASCII character at every offset of 7..33-byte
+        rule: format!("(a) every scalar value in 12 templates (alone, next to ASCII, before/after/around spaces, after NBSP, after a Hebrew letter, before a combining mark, between a 2-byte letter and U+3000, around a fullwidth letter) through 54 operations, plus cancellation templates (next to a mapping that grows and one that shrinks in UTF-8: bare through the 20 rule functions with owned Strings, behind a space / a fullwidth letter through enforce and compare of the profiles that rewrite that prefix): 4 profiles x (prepare, enforce, static prepare, static enforce, compare(s,s), compare(s,a), compare(a,s), static compare, 5 Rules methods) + allows of both classes; (b) every u32 in {} through get_value_from_codepoint of both classes and get_context_rule; (c) every string of length <= {} over a {}-symbol alphabet with one member of every behaviour class and every UTF-8 length, all operations; (c') pumped runs a^k b, b a^k, a^k b a for k in 6..9, 15..17, 30..33, 63..65 over the alphabet (127..1025 over 6 symbols) every ASCII character at every offset of 7..33-byte
     // ASCII strings (two fillers), alphabet symbols alone and in pairs inside 16..41-byte ASCII strings,
     // all of them at every address residue modulo 8 / 16 (sub-slices of a larger buffer), all operations; (c'') every ordered pair of equal-byte-length strings of length <= 3 over 9 symbols run one after the other in the same allocation; (d) the eight context rule functions on every such string of length <= 3 at positions 0..=len+1, usize::MAX-1, usize::MAX, usize::MAX/2, 2^32; oracle: no unwind (built with overflow checks and debug assertions on), no case running longer than 10 s (watchdog); non-trivial = strings with a multi-byte character", if exhaustive_u32 { "0..=u32::MAX" } else { "0..=0x1FFFFF + lattice" }, n, sigma.len()),
         alphabet: json!(sigma.iter().map(|c| format!("U+{:04X}", *c as u32)).collect::<Vec<_>>()),
-        bound_completed: format!("sweep 1,112,064 x (12 templates x 54 ops + 4 templates x 30 ops); tree length <= {} ({} strings)", n, tree_size(sigma.len(), n)),
+        bound_completed: format!("sweep 1,112,064 x (12 templates x 54 ops + 2 x 40 + 4 x 4 cancellation ops); tree length <= {} ({} strings)", n, tree_size(sigma.len(), n)),
         exhaustive: false,
         assumptions: vec!["allocation failure is not explored".into(), "a slicing panic depends only on (predicate class, UTF-8 length, position), all of which the alphabet x length bound enumerates".into()],
         extra: json!({}),
